@@ -117,7 +117,7 @@ def p_xor(text):
 
 def p_template_depth(text):
     """Template-ids nested more than 100 levels deep."""
-    return max_adjacent(re.compile(r"%s[ \t]*<[ \t]*" % ID), text) > 100
+    return max_adjacent(re.compile(r"(?<!\w)%s[ \t]*<[ \t]*" % ID), text) > 100
 
 
 def p_expr_depth(text):
